@@ -146,7 +146,12 @@ def spec_kmu(with_poles):
                         'continue': ['kmag2 < kedges2[0]'],
                         'break': ['kmag2 >= kedges2[len(kedges2) - 1]',
                                   'forall(kk, k, kzlen, i2 + j2 + K2(kk) >= kmag2)'],        # all remaining kz are at or beyond the last edge
-                        'counts[tid, bk, bmu] +=': placement},
+                        'counts[tid, bk, bmu] +=': placement,
+                        # the other accumulators receive the same multiplicity times value / |k| / (2l+1) P_l(mu) value
+                        'weighted_counts[tid, bk, bmu] +=': ['__rhs__ == MULT(k) * weights[i, j, k]'],
+                        'weighted_counts_k[tid, bk, bmu] +=': ['kmag2 >= 0', '__rhs__ == MULT(k) * sqrt(kmag2) * dk'],
+                        'pw = ': [],
+                        'weighted_counts_poles[tid, ip, bk] +=': ['__rhs__ == MULT(k) * weights[i, j, k] * pw', 'pole == poles[ip]']},
                     asserts=['MU2(i2 + j2, k - 1) <= MU2(i2 + j2, k)', 'K2(k - 1) <= K2(k)']),
         3: LoopSpec(invariant=['0 <= bk and bk < Nk', 'bk == 0 or kedges2[bk] < kmag2'], variant='Nk - bk'),
         4: LoopSpec(invariant=['0 <= bmu and bmu < Nmu', 'bmu == 0 or muedges2[bmu] < mu2'], variant='Nmu - bmu'),
@@ -182,7 +187,8 @@ def spec_kppi():
                                   'break': ['kz2 >= piedges2[Npi]', 'forall(kk, k, kzlen, K2(kk) >= kz2)'],
                                   'counts[tid, bk, bpi] +=': ['kedges2[bk] <= kmag2 and kmag2 <= kedges2[bk + 1]',
                                                              'piedges2[bpi] <= kz2 and kz2 <= piedges2[bpi + 1]',
-                                                             'kz2 == K2(k)', '__rhs__ == MULT(k)']},
+                                                             'kz2 == K2(k)', '__rhs__ == MULT(k)'],
+                                  'weighted_counts[tid, bk, bpi] +=': ['__rhs__ == MULT(k) * weights[i, j, k]']},
                     asserts=['K2(k - 1) <= K2(k)']),
         4: LoopSpec(invariant=['0 <= bpi and bpi < Npi', 'bpi == 0 or piedges2[bpi] < kz2'], variant='Npi - bpi'),
     }
